@@ -125,11 +125,24 @@ def _atom(kind, name, args, pos=False, real=True, integer=False):
     return a
 
 
+_CMP = set()
+
+
 def _same(x, y):
     if isinstance(x, Expr) and isinstance(y, Expr):
         if x.n == y.n:
             return True
-        return x.eq(y)
+        fa, fb = x.fp(), y.fp()
+        if fa is not None and fb is not None and fa != fb:
+            return False
+        key = (frozenset(x.n.items()), frozenset(y.n.items()))
+        if key in _CMP or len(_CMP) > 40:
+            return False  # comparison already in progress further up: treat as distinct (sound: never merges different values)
+        _CMP.add(key)
+        try:
+            return x.eq(y)
+        finally:
+            _CMP.discard(key)
     if isinstance(x, Expr) or isinstance(y, Expr):
         return False
     return x == y
@@ -336,6 +349,8 @@ class Expr:
             for a, e in m:
                 if a.kind == "def" or (isinstance(e, Expr) and e.has_defs()):
                     return True
+                if a.kind == "fn" and a.name in ("exp", "expi") and a.args[0].has_defs():
+                    return True
         return False
 
     def expand(self, pred=None):
@@ -359,6 +374,11 @@ class Expr:
                     changed = True
                 if a.kind == "def" and (pred is None or pred(a)):
                     f = power(a.args[0].expand(pred), e2)
+                    t = f if t is None else t * f
+                    changed = True
+                elif a.kind == "fn" and a.name in ("exp", "expi") and pred is None and isinstance(e2, NUM) and a.args[0].has_defs():
+                    g = a.args[0].expand() * as_expr(e2)
+                    f = exp(g if a.name == "exp" else IMAG * g)  # the exponent is re-split term by term
                     t = f if t is None else t * f
                     changed = True
                 elif e2 is not e:
@@ -872,6 +892,10 @@ def define(x, label=None):
     x = as_expr(x)
     if len(x.n) < 2:
         return x
+    if len(x.n) <= 4 and x.has_defs():
+        y = x.expand()
+        if len(y.n) < 2:
+            return y  # the definitions cancel to a single term: no new name needed
     key = frozenset(x.n.items())
     a = _DEFS.get(key)
     if a is None:
@@ -918,8 +942,53 @@ def manifest_sign(e):
 # powers
 
 
+def _absorb(x):
+    """M^k * base(M)^e -> base(M)^(e+k) for a single-term M and integer k (an identity
+    for every non-zero M); keeps products of a monomial and its own symbolic power canonical."""
+    cand = False
+    for m in x.n:
+        for a, e in m:
+            if a.kind == "base" and len(a.args[0].n) == 1 and not isinstance(e, int):
+                cand = True
+    if not cand:
+        return x
+    out = {}
+    for m, c in x.n.items():
+        m2, c2 = m, c
+        for a, e in m:
+            if not (a.kind == "base" and len(a.args[0].n) == 1 and not isinstance(e, int)):
+                continue
+            (mm, cc), = a.args[0].n.items()
+            if not mm or cc != C1:
+                continue
+            cur = {b.id: eb for b, eb in m2}
+            ks = set()
+            ok = True
+            for b, eb in mm:
+                fb = cur.get(b.id)
+                if fb is None or not isinstance(fb, NUM) or not isinstance(eb, NUM):
+                    ok = False
+                    break
+                q = Q(fb) / Q(eb)
+                if q.denominator != 1:
+                    ok = False
+                    break
+                ks.add(int(q))
+            if not ok or len(ks) != 1:
+                continue
+            k = ks.pop()
+            if k == 0:
+                continue
+            ids = {b.id for b, _ in mm}
+            rest = tuple((b, (_exp_add(eb, k) if b is a else eb)) for b, eb in m2 if b.id not in ids)
+            m2 = tuple((b, eb) for b, eb in rest if not _exp_is_zero(eb))
+        out = padd(out, {m2: c2})
+    return Expr(out)
+
+
 def _fix_bases(x):
     """base(P)^e with e >= 1  ->  P^floor(e) * base(P)^frac(e)."""
+    x = _absorb(x)
     need = False
     for m in x.n:
         for a, e in m:
@@ -983,6 +1052,11 @@ def power(x, e):
             if c != C1:
                 r = r * _base_pow(Expr({(): c}), e)
             return _fix_bases(r)
+        if x.has_defs():
+            y = x.expand()
+            cm2 = y.as_mono()
+            if cm2 is not None and cm2[0].im == 0 and cm2[0].re > 0 and all(a.pos for a, _ in cm2[1]):
+                return power(y, e)  # positive monomial once the definitions are substituted
         if c == C1 and len(m) == 1 and m[0][1] == 1:
             return _fix_bases(Expr({((m[0][0], e),): C1}))  # (a^1)^e
         # (p^2)^(1/2) etc. are not simplified for atoms of unknown sign
@@ -1022,6 +1096,10 @@ def sqrt(x):
 def _lead_negative(x):
     if not x.n:
         return False
+    if x.has_defs():
+        x = x.expand()  # the sign convention must not depend on how the argument was named
+        if not x.n:
+            return False
     _, c = _lead(x.n)
     return c.re < 0 or (c.re == 0 and c.im < 0)
 
@@ -1036,7 +1114,7 @@ def exp(x):
     out = ONE
     for m, c in x.n.items():
         logs = [(a, e) for a, e in m if a.kind == "fn" and a.name == "log" and e == 1]
-        if len(logs) == 1 and c.im == 0:
+        if len(logs) == 1 and c.im == 0 and (len(m) == 1 or (len(m) == 2 and all(b.kind == "sym" and eb == 1 for b, eb in m if b is not logs[0][0]))):
             a = logs[0][0]
             others = tuple((b, eb) for b, eb in m if b is not a)
             out = out * power(a.args[0], Expr({others: c}))
@@ -1124,6 +1202,42 @@ def log(x):
                     tot = tot + as_expr(e) * fn("log", atom_expr(a))
             return tot
     return fn("log", x)
+
+
+def formal_log(x, _depth=0):
+    """log of a single-term value as a linear form in LOG(.) generators, valid on
+    the domain where every factor is positive: log(c * prod a_i^e_i) = log c + sum e_i log a_i.
+    Multi-term factors (after expanding definitions) become opaque LOG(factor) generators,
+    interned semantically.  Returns None when x is not a single term."""
+    x = as_expr(x)
+    if _depth > 12:
+        return None
+    if len(x.n) != 1:
+        y = x.expand().simp() if x.has_defs() else x.simp()
+        if len(y.n) != 1:
+            return fn("LOG", y)
+        x = y
+    (m, c), = x.n.items()
+    tot = ZERO
+    if c != C1:
+        if c.im != 0 or c.re <= 0:
+            return None
+        tot = tot + fn("LOG", Expr({(): c}))
+    for a, e in m:
+        ee = as_expr(e)
+        if a is E:
+            tot = tot + ee
+        elif a.kind == "fn" and a.name == "exp":
+            arg = a.args[0].expand() if a.args[0].has_defs() else a.args[0]
+            tot = tot + ee * arg
+        elif a.kind in ("base", "def"):
+            inner = formal_log(a.args[0], _depth + 1)
+            if inner is None:
+                return None
+            tot = tot + ee * inner
+        else:
+            tot = tot + ee * fn("LOG", atom_expr(a))
+    return tot
 
 
 def _pi_multiple(x):
